@@ -9,8 +9,10 @@ CONSTANTS
   H = 200
   U = 25
   AlgVariant = "ok"
+  Cuts = {"none", "low"}
   Export = FALSE
 INVARIANT ModelCovered
+INVARIANT AllNumWhenCovered
 INVARIANT ModelWithItsRow
 INVARIANT ModelPermutationInvariant
 INVARIANT ModelBetween
